@@ -353,6 +353,66 @@ fn prop(t: &mut Tape, st: &mut Stats) -> Result<(), Failure> {
         }
     }
 
+    // --- conversions between the standard and the inline form carry the whole content over
+    {
+        let std_tb = build_table(&tree, t, st);
+        let route = t.below(3);
+        st.class(["convert.into_inline_table", "convert.item.into_value", "convert.item.make_value"][route]);
+        let v: Value = match route {
+            0 => Value::InlineTable(std_tb.clone().into_inline_table()),
+            1 => Item::Table(std_tb.clone()).into_value().map_err(|_| Failure::new("convert", "Item::Table(..).into_value() refused a table".to_string(), case()))?,
+            _ => {
+                let mut it = Item::Table(std_tb.clone());
+                it.make_value();
+                match it {
+                    Item::Value(v) => v,
+                    other => return Err(Failure::new("convert", format!("Item::make_value left a {}", other.type_name()), case())),
+                }
+            }
+        };
+        let as_value = |v: Value, what: &str, want: &Node| -> Result<(), Failure> {
+            let mut d2 = DocumentMut::new();
+            d2["k"] = Item::Value(v);
+            let text2 = d2.to_string();
+            let re2 = text2.parse::<DocumentMut>().map_err(|e| Failure::new("convert-valid", format!("{what}: printed text does not parse: {e}\n---\n{text2}\n---"), case()))?;
+            match re2.get("k").and_then(model::from_edit_item) {
+                Some(g) => model::diff(&g, want, Cmp::EXACT).map_err(|e| Failure::new("convert-roundtrip", format!("{what}: the converted structure prints to text that decodes differently: {e}\n---\n{text2}\n---"), case())),
+                None => Err(Failure::new("convert-roundtrip", format!("{what}: value lost\n{text2}"), case())),
+            }
+        };
+        as_value(v.clone(), "table -> inline table", &Node::Table(tree.clone()))?;
+        // and back: only the top level becomes a standard table again, the content is the same
+        if let Ok(back) = Item::Value(v).into_table() {
+            st.class("convert.into_table");
+            let mut d3 = DocumentMut::new();
+            *d3.as_table_mut() = back;
+            let text3 = d3.to_string();
+            let re3 = text3.parse::<DocumentMut>().map_err(|e| Failure::new("convert-valid", format!("inline table -> table: printed text does not parse: {e}\n---\n{text3}\n---"), case()))?;
+            model::diff_tbl(&model::from_doc(&re3), &tree, Cmp::EXACT)
+                .map_err(|e| Failure::new("convert-roundtrip", format!("inline table -> table: decodes differently: {e}\n---\n{text3}\n---"), case()))?;
+        }
+        // arrays of tables <-> arrays of inline tables
+        for (k, n) in &tree.entries {
+            let (Node::Aot(_), Some(Item::ArrayOfTables(aot))) = (n, std_tb.get(k)) else { continue };
+            st.class("convert.aot.into_array");
+            let arr = aot.clone().into_array();
+            as_value(Value::Array(arr.clone()), "array of tables -> array", n)?;
+            if !arr.is_empty() {
+                if let Ok(a2) = Item::Value(Value::Array(arr)).into_array_of_tables() {
+                    st.class("convert.into_array_of_tables");
+                    let mut d4 = DocumentMut::new();
+                    d4.insert(k, Item::ArrayOfTables(a2));
+                    let text4 = d4.to_string();
+                    let re4 = text4.parse::<DocumentMut>().map_err(|e| Failure::new("convert-valid", format!("array -> array of tables: printed text does not parse: {e}\n---\n{text4}\n---"), case()))?;
+                    match re4.get(k).and_then(model::from_edit_item) {
+                        Some(g) => model::diff(&g, n, Cmp::EXACT).map_err(|e| Failure::new("convert-roundtrip", format!("array -> array of tables: decodes differently: {e}\n---\n{text4}\n---"), case()))?,
+                        None => return Err(Failure::new("convert-roundtrip", format!("array -> array of tables: entry lost\n{text4}"), case())),
+                    }
+                }
+            }
+        }
+    }
+
     // --- toml::Value / toml::Table Display
     let tt = model::to_toml_table(&tree);
     let ttext = tt.to_string();
@@ -393,7 +453,7 @@ fn toml_printed_model(tb: &Tbl) -> Tbl {
 
 pub fn run(args: Args) -> ! {
     let mut rep = Report::new("C06", args.tier, args.seed);
-    rep.rule = "a generated tree with adversarial leaves (any Unicode incl. controls, odd keys, i64/f64 edge classes, valid date-times) is built through a generated choice of API routes (DocumentMut insert / IndexMut / as_table_mut; Table insert / IndexMut / entry().or_insert / insert_formatted / from_iter; InlineTable insert / from_iter / get_or_insert / insert_formatted; Array push / from_iter / push_formatted / insert; ArrayOfTables push / from_iter; value(), From impls, Key::new) and as toml::Table / toml::Value; to_string() must parse (library and reference), decode to the built tree (values before tables as a stable partition, empty array of tables = absent), print identically twice and from a clone; Key and Value Display are checked in position. non-trivial = depth >= 2 with a leaf/key needing quoting, or a table with only sub-tables, or an array of tables inside an array of tables; distinct by tree".into();
+    rep.rule = "a generated tree with adversarial leaves (any Unicode incl. controls, odd keys, i64/f64 edge classes, valid date-times) is built through a generated choice of API routes (DocumentMut insert / IndexMut / as_table_mut; Table insert / IndexMut / entry().or_insert / insert_formatted / from_iter; InlineTable insert / from_iter / get_or_insert / insert_formatted; Array push / from_iter / push_formatted / insert; ArrayOfTables push / from_iter; value(), From impls, Key::new), converted between standard and inline form (Table::into_inline_table, Item::into_value / make_value / into_table / into_array_of_tables, ArrayOfTables::into_array), and as toml::Table / toml::Value; to_string() must parse (library and reference), decode to the built tree (values before tables as a stable partition, empty array of tables = absent), print identically twice and from a clone; Key and Value Display are checked in position. non-trivial = depth >= 2 with a leaf/key needing quoting, or a table with only sub-tables, or an array of tables inside an array of tables; distinct by tree".into();
     rep.assumptions = vec!["Item::None, raw decor setters, set_dotted/implicit/position and non-value items under value containers are outside (documented preconditions)".into()];
     if let Some(p) = &args.replay {
         let j = super::load_replay(p);
